@@ -13,12 +13,13 @@ W  == S("t_oneway", <<L("e", 3)>>)
 Z  == S("t_failodd", <<>>)
 M(n) == S(n, <<>>)
 
-Res == [n \in {"m:s", "m:p", "m:d", "m:i", "m:n", "m:w"} |->
+Res == [n \in {"m:s", "m:p", "m:d", "m:i", "m:n", "m:w", "m:o"} |->
           CASE n = "m:s" -> <<A5>>
             [] n = "m:p" -> <<A, B>>
             [] n = "m:d" -> <<A, Mod(B, FALSE, TRUE, FALSE)>>                     \* ends in a directional step
             [] n = "m:i" -> <<Mod(B, TRUE, FALSE, FALSE), Mod(C, FALSE, FALSE, TRUE), A>>
             [] n = "m:n" -> <<Mod(M("m:p"), TRUE, FALSE, FALSE), C>>              \* nested, inverted inside
+            [] n = "m:o" -> <<Mod(A5, FALSE, FALSE, TRUE)>>                       \* a one-step pipeline: a single directional step
             [] n = "m:w" -> <<W, A>>]                                             \* contains a one-way step
 
 Base == {A, B, C, W, Z} \cup {M(n) : n \in DOMAIN Res}
@@ -26,7 +27,7 @@ Mods3 == {<<i, f, o>> : i \in BOOLEAN, f \in BOOLEAN, o \in BOOLEAN}
 Mods  == {m \in Mods3 : ~(m[2] /\ m[3])}           \* quick: not both omissions at once
 Steps1   == {Mod(b, m[1], m[2], m[3]) : b \in Base, m \in Mods}
 StepsAll == {Mod(b, m[1], m[2], m[3]) : b \in Base, m \in Mods3}
-TopLevel == {Mod(b, i, FALSE, FALSE) : b \in Base, i \in BOOLEAN}   \* a lone step has no enclosing pipeline to omit it from
+TopLevel == Steps1      \* a lone step with an omission is a pipeline of one step
 
 Progs2 == {<<s>> : s \in TopLevel} \cup [1..2 -> Steps1]
 \* thorough: three steps; the middle one carries every modifier combination
